@@ -479,6 +479,12 @@ func judge(s *Scenario, o *Obs) *verdict {
 				v.add("chan-capacity:exceeded:cap="+capClass(cs.Cap), "channel c%d with capacity %d: %s", ch, cs.Cap, detail)
 			}
 			v.Events["occupancy_checked"]++
+			if ok, detail := realTimeOrder(o.Stamps, ch, func(x any) (int, int, bool) { k, ok := decodeMsg(s, ch, x); return k.sid, k.seq, ok }); !ok {
+				if !(s.multiIter(ch) && hasSig(v, "chan-iter-multi-receiver:lost-or-duplicated")) {
+					v.add("order:per-sender:real-time:recv="+styleSet(s, s.gorsOf(ch, "recv")), "channel c%d (cap %d): %s", ch, cs.Cap, detail)
+				}
+			}
+			v.Events["real_time_order_checked"]++
 			if cs.Mode == "close" {
 				if bad, detail := nilBeforeClose(o.Stamps, ch); bad {
 					v.add("nil-before-close:stamped", "channel c%d: %s", ch, detail)
@@ -827,15 +833,15 @@ func drive(d *mon.Driver, replay string) int {
 	}
 	parallelFor := func(procs int) int {
 		n := runtime.NumCPU() / procs
-		if n < 2 {
-			n = 2
+		if n < 3 {
+			n = 3
 		}
 		return n
 	}
 	t0 := time.Now()
 	pm := byProcs(plain)
 	for _, procs := range procsOf(pm) {
-		d.RunPool(pm[procs], mon.PoolOpts{BatchSize: 10, Parallel: parallelFor(procs), BatchTimeout: 30 * time.Minute, OnUnconfirmed: onUnconfirmed,
+		d.RunPool(pm[procs], mon.PoolOpts{BatchSize: d.N(10, 25), Parallel: parallelFor(procs), BatchTimeout: 30 * time.Minute, OnUnconfirmed: onUnconfirmed,
 			Env: []string{fmt.Sprintf("GOMAXPROCS=%d", procs)}}, handle)
 	}
 	d.Extra("wall_plain_s", time.Since(t0).Seconds())
@@ -856,7 +862,7 @@ func drive(d *mon.Driver, replay string) int {
 	}
 	rm := byProcs(race)
 	for _, procs := range procsOf(rm) {
-		d.RunPool(rm[procs], mon.PoolOpts{Binary: raceBin, BatchSize: 5, Parallel: parallelFor(procs), BatchTimeout: 30 * time.Minute, OnUnconfirmed: onUnconfirmed,
+		d.RunPool(rm[procs], mon.PoolOpts{Binary: raceBin, BatchSize: d.N(5, 20), Parallel: parallelFor(procs), BatchTimeout: 30 * time.Minute, OnUnconfirmed: onUnconfirmed,
 			Env: append([]string{fmt.Sprintf("GOMAXPROCS=%d", procs)}, raceEnv...),
 			AfterBatch: func(dir string, cases []mon.Case) {
 				flush()
@@ -934,5 +940,5 @@ func drive(d *mon.Driver, replay string) int {
 	if replay != "" {
 		return d.Finish(1, 0)
 	}
-	return d.Finish(d.N(300, 18000), d.N(60, 1500))
+	return d.Finish(d.N(300, 18000), d.N(100, 4000))
 }
